@@ -82,8 +82,12 @@ class Check(Property):
                 steps.append({"f": "context", "on": rng.random() < 0.6})
             elif r < 0.80:
                 steps.append({"f": "inplace", "u": rng.choice(["meter", "second", "gram"]), "by": rng.choice(["second", "meter"])})
-            elif r < 0.85:
+            elif r < 0.83:
                 steps.append({"f": "other_registry"})
+            elif r < 0.86:
+                # an object converted through a context after its own dimensionality has been read (per-object memo)
+                steps.append({"f": "ctxto", "src": rng.choice([["nanometer", "terahertz", "sp"], ["terahertz", "electron_volt", "sp"],
+                                                               ["kelvin", "joule", "boltzmann"]])})
             elif r < 0.92:
                 steps.append({"f": "dim", "u": [[rng.choice(units), "1/1"]]})
             else:
@@ -108,6 +112,8 @@ class Check(Property):
         for s in steps:
             if s["f"] in ("convert", "base", "root", "dim", "parse"):
                 out.append(dict(s))
+            if s["f"] == "ctxto":
+                out.append({"f": "objdim", "i": sum(1 for z in steps[:steps.index(s) + 1] if z["f"] == "ctxto") - 1, "dst": s["src"][1]})
             if s["f"] == "base":
                 # the same unit under the other systems / the default: a memo keyed without the system shows here
                 out.append({"f": "base", "u": s["u"], "system": None})
@@ -182,6 +188,8 @@ class Check(Property):
                     ops.append({"op": "dim", "u": p["u"]})
                 elif p["f"] == "name_ci":
                     ops.append({"op": "resolve", "s": p["s"], "cs": False})
+                elif p["f"] == "objdim":
+                    ops.append({"op": "dim", "u": [[p["dst"], "1/1"]]})      # the converted object has the destination's dimensionality
             ops.append({"op": "ctx", "f": "clear"})
             ops.append({"op": "reset"})
             self.bump("history")
@@ -240,6 +248,9 @@ class Check(Property):
             return sorted([k, frac_s(regs.to_frac(v))] for k, v in u.get_dimensionality(regs.pint_uc(u, s["u"])).items())
         if f == "name_ci":
             return u.get_name(s["s"], case_sensitive=False)
+        if f == "objdim":
+            obj = getattr(u, "_c13_objs", [])[s["i"]]
+            return sorted([k, frac_s(regs.to_frac(v))] for k, v in obj.dimensionality.items())
         if f == "format":
             return format(u.Unit(regs.pint_uc(u, s["u"], canonical=True)), "~P")
         return None
@@ -256,6 +267,14 @@ class Check(Property):
                 try:
                     if s["f"] in ("define", "default_system", "context"):
                         self.apply_state(u, s, st)
+                    elif s["f"] == "ctxto":
+                        q = u.Quantity(Fraction(500), s["src"][0])
+                        if with_queries:
+                            q.dimensionality
+                            q.check("[length]")
+                        if not hasattr(u, "_c13_objs"):
+                            u._c13_objs = []
+                        u._c13_objs.append(q.to(s["src"][1], s["src"][2]))
                     elif not with_queries:
                         continue
                     elif s["f"] == "inplace":
